@@ -27,7 +27,8 @@ RULE = (
     "cases = histories of 1-40 operations over 1-4 jobs: submit (uuid source is a generated low-entropy sequence so the "
     "collision loop runs), controller report with generated timestamp (monotonic, out of order, duplicated), progress string or "
     "None, 0-2 results, shutdown notice, frontend progress query (known / unknown / empty id list), result query (known / unknown "
-    "job and dataset); every response is compared with a dict model; non-trivial = >=2 jobs, >=1 report that arrives with a "
+    "job and dataset; dataset ids that print alike), bursts of 2-4 reports delivered as one backlog on the controller socket, reports "
+    "optionally produced by the controller's real Reporter; every response is compared with a dict model; non-trivial = >=2 jobs, >=1 report that arrives with a "
     "timestamp older than one already received for that job, and >=1 query answered while >=2 jobs are tracked; distinct = "
     "fingerprint of the operation list"
 )
